@@ -1,8 +1,162 @@
-/- Driver operations of the Inspect model (stub until the model lands). -/
-import TypelibModel.Drv.Core
-open Lean
-namespace Typelib.Drv
+/-
+  Driver operations of the Inspect model (C17), over the linked `Gen.lattice`.
 
-def handleInspect (_st : St) (_op : String) (_j : Json) : Option (Except String (St × Json)) := none
+  "inspect.eval": {"ann": A} → {"model": {pred: answer}, "spec": {pred: answer}}
+     answers: true | false | "raise" | annotation JSON | string | null (not modelled / outside the domain)
+  "inspect.info": {} → {"bases": [names], "targets": n, "gtm": [[k, v]]}
+
+  Annotation encoding (mirrored by harness/props/c17.py `enc`):
+    ["b", name]  ["s", generic name, [args]]  ["u", "typing"|"pipe"|"optional", [members]]  ["l", hasNone]
+    ["F", a] Final  ["C", a] ClassVar  ["N", a] NewType  ["A", a] TypeAliasType
+    ["tb", bound]  ["tc", [constraints]]  ["tf"]  ["r", startsWithLiteral]
+-/
+import TypelibModel.Drv.Core
+import TypelibModel.Model.Inspect
+import TypelibModel.Gen.Lattice
+open Lean
+namespace Typelib.Drv.InspectOps
+open Typelib Typelib.Inspect
+
+def lat : Lattice := Typelib.Gen.lattice
+
+def idOfName (n : String) : Except String Nat :=
+  match lat.rows.findIdx? (fun r => r.name == n) with
+  | some i => .ok i
+  | none => .error s!"unknown base {n}"
+
+def nameOfId (i : Nat) : String :=
+  match lat.row i with
+  | some r => r.name
+  | none => s!"?{i}"
+
+def uspOfString : String → Except String USp
+  | "typing" => .ok .typing
+  | "pipe" => .ok .pipe
+  | "optional" => .ok .optional
+  | s => .error s!"union spelling {s}"
+
+def uspToString : USp → String
+  | .typing => "typing" | .pipe => "pipe" | .optional => "optional"
+
+partial def annOfJson (j : Json) : Except String Ann :=
+  match j with
+  | .arr a =>
+    match a.toList with
+    | [.str "b", .str n] => do pure (.base (← idOfName n))
+    | [.str "s", .str g, .arr xs] => do pure (.sub (← idOfName g) (← xs.toList.mapM annOfJson))
+    | [.str "u", .str sp, .arr xs] => do pure (.union (← uspOfString sp) (← xs.toList.mapM annOfJson))
+    | [.str "l", .bool h] => .ok (.literal h)
+    | [.str "F", x] => do pure (.final (← annOfJson x))
+    | [.str "C", x] => do pure (.classvar (← annOfJson x))
+    | [.str "N", x] => do pure (.newtype (← annOfJson x))
+    | [.str "A", x] => do pure (.alias (← annOfJson x))
+    | [.str "tb", x] => do pure (.tvarBound (← annOfJson x))
+    | [.str "tc", .arr xs] => do pure (.tvarConstr (← xs.toList.mapM annOfJson))
+    | [.str "tf"] => .ok .tvarFree
+    | [.str "r", .bool l] => .ok (.fref l)
+    | _ => .error s!"bad annotation {j}"
+  | _ => .error s!"bad annotation {j}"
+
+partial def annToJson : Ann → Json
+  | .base i => .arr #[.str "b", .str (nameOfId i)]
+  | .sub g xs => .arr #[.str "s", .str (nameOfId g), .arr (xs.map annToJson).toArray]
+  | .union sp xs => .arr #[.str "u", .str (uspToString sp), .arr (xs.map annToJson).toArray]
+  | .literal h => .arr #[.str "l", .bool h]
+  | .final x => .arr #[.str "F", annToJson x]
+  | .classvar x => .arr #[.str "C", annToJson x]
+  | .newtype x => .arr #[.str "N", annToJson x]
+  | .alias x => .arr #[.str "A", annToJson x]
+  | .tvarBound x => .arr #[.str "tb", annToJson x]
+  | .tvarConstr xs => .arr #[.str "tc", .arr (xs.map annToJson).toArray]
+  | .tvarFree => .arr #[.str "tf"]
+  | .fref l => .arr #[.str "r", .bool l]
+
+def jOB : Option Bool → Json
+  | some b => .bool b
+  | none => .str "raise"
+
+def jSpec : Option Bool → Json
+  | some b => .bool b
+  | none => .null
+
+def jOA : Option Ann → Json
+  | some a => annToJson a
+  | none => .str "raise"
+
+/-- `issubscriptedcollectiontype`: `iscollectiontype(obj) and issubscriptedgeneric(obj)`. -/
+def subscriptedCollection (a : Ann) : Option Bool :=
+  match iscollectiontypeM lat a with
+  | none => none
+  | some false => some false
+  | some true => some (issubscriptedgenericM lat a)
+
+def groupA : List (String × Target) :=
+  [("isdatetype", .date), ("isdatetimetype", .datetime), ("istimetype", .time), ("istimedeltatype", .timedelta),
+   ("isdecimaltype", .decimal), ("isfractiontype", .fraction), ("isuuidtype", .uuid),
+   ("isiterabletype", .iterable), ("isiteratortype", .iterator)]
+
+def groupB : List (String × Target) :=
+  [("isenumtype", .enum), ("istexttype", .text), ("isstringtype", .str), ("isbytestype", .bytes),
+   ("isnumbertype", .number), ("isintegertype", .int), ("isfloattype", .float), ("ispatterntype", .pattern),
+   ("ispathtype", .purepath)]
+
+def nameJson (a : Ann) : Json × Json :=
+  match a with
+  | .base i =>
+    match lat.row i with
+    | some r => (.str (String.ofList (nameRow r)), .str (String.ofList (qualnameRow r)))
+    | none => (.null, .null)
+  | _ => (.null, .null)
+
+def modelAnswers (a : Ann) : Json :=
+  let (nm, qn) := nameJson a
+  Json.mkObj (
+    [("origin", annToJson (originM lat a)), ("unwrap", jOA (unwrapM lat a)),
+     ("resolve_supertype", annToJson (resolveSupertype a))]
+    ++ groupA.map (fun p => (p.1, jOB (predA lat p.2 a)))
+    ++ [("istupletype", jOB (istupletypeM lat a)), ("issequencetype", jOB (issequencetypeM lat a)),
+        ("iscollectiontype", jOB (iscollectiontypeM lat a)), ("ismappingtype", jOB (ismappingtypeM lat a)),
+        ("issubscriptedcollectiontype", jOB (subscriptedCollection a))]
+    ++ groupB.map (fun p => (p.1, Json.bool (predB lat p.2 a)))
+    ++ [("isbuiltinsubtype", jOB (isbuiltinsubtypeM lat a)), ("isstdlibsubtype", .bool (isstdlibsubtypeM lat a)),
+        ("isbuiltintype", .bool (isbuiltintypeM lat a)), ("isclassvartype", .bool (isclassvartypeM lat a)),
+        ("isuniontype", .bool (isuniontypeM lat a)), ("isoptionaltype", .bool (isoptionaltypeM lat a)),
+        ("isliteral", .bool (isliteralM lat a)), ("isfinal", .bool (isfinalM lat a)),
+        ("should_unwrap", .bool (shouldUnwrapM lat a)), ("isforwardref", .bool (isforwardrefM a)),
+        ("istypealiastype", .bool (istypealiastypeM a)), ("isunresolvable", .bool (isunresolvableM lat a)),
+        ("isnonetype", .bool (isnonetypeM lat a)), ("isgeneric", .bool (isgenericM lat a)),
+        ("issubscriptedgeneric", .bool (issubscriptedgenericM lat a)),
+        ("isfixedtupletype", .bool (isfixedtupletypeM lat a)), ("istypeddict", .bool (istypeddictM lat a)),
+        ("isnamedtuple", .bool (isnamedtupleM lat a)), ("istypedtuple", .bool (istypedtupleM lat a)),
+        ("iscallable", .bool (iscallableM lat a)), ("name", nm), ("qualname", qn)])
+
+/-- The class-valued oracle of the Lean theorems, for cross-checking against the harness's own oracle. -/
+def specAnswers (a : Ann) : Json :=
+  let resolved : Json := match resolvedClass lat a with
+    | some c => .str (nameOfId c)
+    | none => .null
+  let inst : Json := match resolvedClass lat a with
+    | some c => .bool (lat.flag (·.instantiable) c)
+    | none => .null
+  Json.mkObj (
+    [("resolved", resolved), ("resolved_instantiable", inst), ("core", annToJson (core lat a)),
+     ("erase", annToJson (erase lat a))]
+    ++ (groupA ++ [("istupletype", Target.tuple), ("iscollectiontype", .collection), ("issequencetype", .collection)]
+        ++ groupB).map (fun p => (p.1, jSpec (specSub lat p.2 a))))
+
+end Typelib.Drv.InspectOps
+
+namespace Typelib.Drv
+open Typelib.Drv.InspectOps
+
+def handleInspect (st : St) (op : String) (j : Json) : Option (Except String (St × Json)) :=
+  match op with
+  | "inspect.eval" => some do
+    let a ← annOfJson (← j.getObjVal? "ann")
+    pure (st, Json.mkObj [("model", modelAnswers a), ("spec", specAnswers a)])
+  | "inspect.info" => some do
+    pure (st, Json.mkObj [("bases", .arr (lat.rows.map (fun r => Json.str r.name)).toArray),
+                          ("gtm", .arr (lat.gtm.map (fun e => Json.arr #[.str (nameOfId e.1), .str (nameOfId e.2.1)])).toArray)])
+  | _ => none
 
 end Typelib.Drv
